@@ -8,6 +8,8 @@ CONSTANTS
   Marker = 8
   NoStamp = {}
   Reverse = FALSE
+  CellNs = {0, 32768}
+  CellRead = "unsigned"
 INVARIANTS
   SameType
   CarriedRestored
